@@ -174,7 +174,12 @@ func buildEventQuery(
 		ors = append(ors, or)
 	}
 
-	builder = builder.Where(goqu.Or(ors...))
+	if len(ors) == 0 {
+		// no filter matches nothing
+		builder = builder.Where(goqu.L("0"))
+	} else {
+		builder = builder.Where(goqu.Or(ors...))
+	}
 
 	return builder.Prepared(true).ToSQL()
 }
